@@ -36,7 +36,8 @@ One(n, d) == (n :> d)
 (* Shape                                                                    *)
 LeafBasic   == {B(n) : n \in {"int", "string", "bool", "float64", "byte", "rune", "uintptr", "complex128", "error", "any"}} \cup {Unsafe}
 LeafLocal   == {N("SRC", "LT"), N("SRC", "lt"), N("SRC", "LI"), N("SRC", "LE"), N("SRC", "LA")}
-LeafForeign == {N("FX", "T"), N("FX", "I"), N("FX", "E"), N("FX", "A"), N("FY", "T"), N("FZ", "T"), N("FV", "T"), N("FM", "T"), N("FS", "T")}
+LeafForeign == {N("FX", "T"), N("FX", "I"), N("FX", "E"), N("FX", "A"), N("FY", "T"), N("FZ", "T"), N("FV", "T"), N("FM", "T"), N("FS", "T"),
+                N("FX", "Client"), N("FY", "Client"), N("FX", "Token"), N("FV", "Token")}   \* aliases of types the destination cannot name
 LeafStd     == {N("Sio", "Reader"), N("Scontext", "Context"), N("Stime", "Duration")}
 LeafInst    == {Inst("SRC", "LG", <<Int>>), Inst("FX", "G", <<N("FY", "T")>>), Inst("SRC", "LG2", <<Str, N("FX", "T")>>)}
 Leaves      == LeafBasic \cup LeafLocal \cup LeafForeign \cup LeafStd \cup LeafInst
@@ -256,7 +257,23 @@ UnnamedProg(ts) ==
                                      Meth("V", <<V("", Int), V("", ts[1])>>, << >>, TRUE),
                                      Meth("W", <<V("ctx", N("Scontext", "Context"))>>, <<V("", Err), V("", ts[1])>>, FALSE)>>)), "I")
    EXCEPT !.idclass = "unnamed"]
-LocalAll == {LocalProg(n) : n \in LocalNamed} \cup {UnnamedProg(ts) : ts \in UnnamedSigs}
+\* GENERATED names that equal a predeclared identifier: an unnamed parameter of a named type whose de-capitalised name is
+\* predeclared (Byte -> byte, Error -> error, Len -> len), next to composite uses of that identifier in the same signature.
+GenTypeLike == {"Byte", "Rune", "String", "Int", "Bool", "Uint8", "Int64", "Uintptr", "Float64", "Complex128", "Error", "Any"}
+GenFuncLike == {"Len", "New", "Append", "Make", "Panic", "Cap", "Nil", "True", "Iota"}
+GenPreProg(x) ==
+  LET lo == DeCap(x)
+      X == N("SRC", x)
+      mths == IF x \in GenTypeLike
+            THEN <<Meth("M", <<V("", X), V("", B(lo))>>, <<V("", Slice(B(lo)))>>, TRUE),          \* M(X, ...lo) []lo
+                   Meth("N", <<V("_", Ptr(X)), V("_", Map(B(lo), X))>>, <<V("", Arr(B(lo))), V("", Err)>>, FALSE),
+                   Meth("V", <<V("", N("FX", x))>>, <<V("", Chan("recv", B(lo)))>>, FALSE)>>   \* the same name from a foreign package
+            ELSE <<Meth("M", <<V("", X), V("", Int)>>, <<V("", Ptr(Int)), V("", Err)>>, TRUE),    \* templates use len / nil / panic / append
+                   Meth("N", <<V("_", Ptr(X))>>, <<V("", Slice(Int))>>, FALSE)>>
+  IN [P("genpre/" \o x, "unnamed", x, "cs", One("I", Decl(<< >>, << >>, mths)), "I")
+      EXCEPT !.idclass = "gen-predeclared", !.ident = x]
+GenPreAll == {GenPreProg(x) : x \in GenTypeLike \cup GenFuncLike}
+LocalAll == {LocalProg(n) : n \in LocalNamed} \cup {UnnamedProg(ts) : ts \in UnnamedSigs} \cup GenPreAll
 
 (* ------------------------------------------------------------------------ *)
 \* abstraction tables the harness cross-checks against its concretisation (package names, go/types method order)
